@@ -37,6 +37,8 @@ def models(tier):
 
 
 def build_model(name, dt):
+    if name.startswith("generic:"):
+        return copy.deepcopy(dict(generic_specs())[name[8:]])
     if name == "combined":
         spec = simspace.combined_spec(dt, v=0.3, dur=1.0, tj=0.2, pa=0.3, d=0.01, br=5.0, prog=True)
         spec["progs"]["instr"] = dict(start=S0)
@@ -58,10 +60,33 @@ KINDS = {
 }
 
 
+def generic_specs():
+    """thorough tier: one representative of every timed structure and every junction gadget; every data parameter is a scenario target"""
+    seen = set()
+    for s in simspace.timed("quick"):
+        k = ("timed", s["timed"]["struct"])
+        if k not in seen and s["timed"]["D"] == "3dt" and s["timed"]["extra"] == 0.3 and s["timed"]["ainit"] == 60.0 and s["sim"][2] == 0.25:
+            seen.add(k)
+            yield "timed_" + s["timed"]["struct"], s
+    for s in simspace.junctions("quick"):
+        g = s["gadget"]
+        k = ("junc", g["name"])
+        if k not in seen and g["ok"] and g["psrc"] == "const" and g["jinit"] == 50.0 and all(p == 0.5 for p in g["props"]) and s["sim"][2] == 0.25:
+            seen.add(k)
+            yield "junction_" + g["name"], s
+
+
 def cases(tier):
     for name, dt in models(tier):
         for kind in KINDS[name]:
             yield dict(model=name, dt=dt, kind=kind)
+    if tier == "thorough":
+        for name, spec in generic_specs():
+            for p in spec["pars"]:
+                if p.get("val") is not None and not p.get("timed"):
+                    for interp in ("linear", "previous"):
+                        yield dict(model="generic:" + name, dt=spec["sim"][2], kind=f"scen:{p['name']}:{interp}")
+            yield dict(model="generic:" + name, dt=spec["sim"][2], kind="extend")
 
 
 def arrays(r):
@@ -184,6 +209,21 @@ def run_case(case):
                 scen.add("mix", ("pa", "pb"), [Y, Y + 1.0], [3.0, 0.1])
             else:
                 pop = w.parset.pop_names[0]
+                if name.startswith("generic:"):
+                    base_v = next(p["val"] for p in spec["pars"] if p["name"] == target)
+                    base_v = base_v if isinstance(base_v, (int, float)) else 0.5
+                    scen.add(target, pop, [Y, Y + 1.0], [base_v * 2 + 0.1, base_v * 0.5])
+                    ps2 = scen.get_parset(w.parset, w.P)
+                    r2 = w.P.run_sim(ps2, store_results=False)
+                    b2 = arrays(r2)
+                    v, n = compare_before(a, b2, t, Y, f"{lab0} Y={Y!r}")
+                    eff += differs(a, b2)
+                    vs += v
+                    states += n
+                    trans += 1
+                    if len(vs) >= 3:
+                        break
+                    continue
                 v1, v2 = dict(vr=(0.8, 0.1), pb=(0.9, 0.2), pa=(0.9, 0.1), br=(50.0, 1.0), rec=(0.9, 0.05), p1=(0.9, 0.05), drv=(0.6, 0.01), p2=(0.2, 0.3))[target]
                 scen.add(target, pop, [Y, Y + 1.0], [v1, v2])
             ps2 = scen.get_parset(w.parset, w.P)
